@@ -304,8 +304,12 @@ func runCheck(p *property, tier string, seed int) int {
 				h := sha1.Sum([]byte(r.Case + r.Kind + strings.Join(r.Obs, ";") + fmt.Sprint(len(r.Asserts))))
 				distinctSig[string(h[:8])] = true
 			}
-			if len(samples) < 6 && r.Model != nil && (r.Kind == "OK" || r.Kind == "ASSERTFAIL") {
-				samples = append(samples, map[string]any{"case": r.Case, "path_kind": r.Kind, "witness_inputs": r.Model, "observed": r.Obs, "assertions_on_path": len(r.Asserts), "decisions": r.Decisions})
+			if len(samples) < 6 && (r.Model != nil || len(r.Inputs) == 0) && (r.Kind == "OK" || r.Kind == "ASSERTFAIL") {
+				wi := any(r.Model)
+				if r.Model == nil {
+					wi = map[string]uint64{} // no symbolic scalar on this path: the decisions are schedule / enumeration choices
+				}
+				samples = append(samples, map[string]any{"case": r.Case, "path_kind": r.Kind, "witness_inputs": wi, "observed": r.Obs, "assertions_on_path": len(r.Asserts), "decisions": r.Decisions, "threads": r.Threads})
 			}
 			// native cross-validation record for the path itself
 			if c != nil && !p.NoNative && r.Threads <= 1 && !r.NoNative {
